@@ -77,8 +77,18 @@ func WireEvent(t *rapid.T, label string, sign bool) *mocrelay.Event {
 	if sign {
 		Sign(e, Keys[rapid.IntRange(0, NKeys-1).Draw(t, label+"key")])
 	} else {
-		e.Pubkey = rapid.OneOf(rapid.SampledFrom(Pubkeys(NKeys)), rapid.StringMatching("[0-9a-f]{64}")).Draw(t, label+"pk")
+		e.Pubkey = rapid.OneOf(rapid.SampledFrom(Pubkeys(NKeys)), rapid.StringMatching("[0-9a-f]{64}"), rapid.SampledFrom(OffCurvePubkeys)).Draw(t, label+"pk")
 		Seal(e)
+		// a signature is 128 lower-case hex digits; whether it can be parsed or verified is not
+		// a matter of form
+		switch rapid.IntRange(0, 9).Draw(t, label+"sigshape") {
+		case 0:
+			e.Sig = strings.Repeat("f", 128)
+		case 1:
+			e.Sig = strings.Repeat("0", 128)
+		case 2:
+			e.Sig = FieldPrimeHex + GroupOrderHex
+		}
 	}
 	return e
 }
